@@ -12,6 +12,16 @@ CHECKS = {
    note=TB + 'Modelled, not verified: Layout/Model.v and Tracer/Model.v are hand-written (tied by correspondences 1-3); positions are unbounded nat (no uint32 wrap: >= 512 MiB records, S12); hypotheses: alignments 1/2/4/multiple of 8, array elements not dynamic arrays, well-typed arguments (strings without NUL, dynamic array length member = element count), unique event ids; the link between write_bits/enc_int and the byte-level bit-field macro is C08 + the byte correspondence, not a Coq lemma; harness/tsdl.py (TSDL parser) is trusted.',
    technique='Coq proof (induction on field type trees: builder soundness + encode/decode round trip) + differential runs model vs real op trees / metadata / compiled tracer',
    ref='5.C01'),
+ 'C02': dict(
+   text='Coq theorems (all configurations, oracles, histories unless stated): the packet buffer keeps its length in every reachable world - every store the model performs is inside it or raises the error flag (C02_buffer_length_invariant); the size pass gives exactly the position serialization reaches (C02_size_pass_mirrors_serialization); a structure whose computed end fits is serialized without any store outside (C02_fitting_structure_in_bounds); after a successful reservation, if the reserved size is the record size at the position finally used (always true without a packet switch), every store of the record is inside the packet (C02_record_in_bounds_partial). The unrestricted statement is refuted for the faithful model AND the real code: C02_refuted_stale_size (S9), C02_refuted_smaller_buffer (S18) - known findings replayed by the check. Validation: every correspondence run uses gcc -ansi ASan+UBSan builds with exact-size heap buffers; model and compiled tracer agree on which call overflows.',
+   note=TB + 'Partial: the compiled object\'s memory accesses and compiler-visible UB are validated by sanitizers, not proved; uint32 wrap of ctx->at (S12) outside the model; bit-field level UB freedom is C08. Known findings S9, S18 (genuine defects of /repo, not repaired: the repair needs the size functions to be re-run after a packet switch).',
+   technique='Coq proof (invariant + size/serialize mirror lemmas + refutation witnesses) + sanitizer-instrumented differential runs',
+   ref='5.C02'),
+ 'C03': dict(
+   text='Coq theorems on the tracer model for all configurations/oracles/worlds: a tracing call logs at most one discard (C03_at_most_one_discard); _reserve_er_space logs exactly one discard iff it refuses the record (C03_reserve_discards_iff_fails; with C06_accessors the counter equals the refused calls); a refusal happens only when the record exceeds the capacity test or right after is_backend_full answered true (C03_discard_only_if); an accepted record is serialized once, contiguously, in bounds (C02) and reads back (C01). Oracle on every run: the Coq CTF reader applied to the REAL packets with the REAL parsed metadata returns exactly the accepted calls in call order, and the final counter equals the missing calls.',
+   note=TB + 'Partial: the whole-history statement (records in emitted packets = accepted calls in order) is checked by the decode oracle on the implementation, not proved (needs the packet-level frame argument). Known finding S9: the capacity test uses the size at the current position. Records of zero bits are excluded (S13).',
+   technique='Coq proof (per-call outcome theorems on the state machine) + decode oracle on real packets + differential run',
+   ref='5.C03'),
  'C05': dict(
    text='Coq theorems on the tracer state machine model, for all configurations, oracles and histories: every timestamp written (packet beginning, packet end, record) is the most recent clock sample (C05_ts_is_latest_sample), a record timestamp is the sample taken at the entry of its tracing call (C05_record_ts_is_entry_sample), and under no clock wrap-around the written timestamps are non-decreasing in writing order, hence begin <= records <= end <= next begin (C05_ts_monotone, C05_ts_pairwise). Tie: the model is run against the compiled generated tracer on random histories (callback order, every context field after every call, every packet byte); oracle on the real packets: decoded timestamps are replayed clock samples, ordered.',
    note=TB + 'Modelled: Tracer/Model.v hand-written, tied by correspondence; hypothesis nowrap (no reduction modulo 2^clock bits); that the stored bits are the value modulo the field size is the layout layer (C01/C08).',
